@@ -33,8 +33,8 @@ SPEC = dict(
              "span count first exceeded SpanLimit) with the 60 s / 2 s fall-backs measured from the code (deadline_formula, by a simulation "
              "invariant against a history-indexed spec; SendBy only lowered), ticks decide only traces whose deadline has passed, the "
              "decided traces are a prefix of a deadline-sorted order of length min(MaxExpiredTraces, #expired), bounded no-starvation "
-             "(backlog shrinks by MaxExpiredTraces per tick whatever else arrives), send-reason selection (proved for SpanLimit < 2^32, "
-             "refuted with a witness above: uint32 truncation in sendExpiredTracesInCache), and a refinement lemma that the Go loop over a "
+             "(backlog shrinks by MaxExpiredTraces per tick whatever else arrives), send-reason selection for every SpanLimit "
+             "(full statement; the former uint32 truncation is fixed and kept as a regression case), and a refinement lemma that the Go loop over a "
              "sorted-list priority queue yields an accepted take. Model tied to collect/collector_worker.go + collect/cache/cache.go by "
              "driving the real InMemCollector (workers parked with the code's pause channel; processSpan, sendExpiredTracesInCache, "
              "sendTracesEarly, checkAlloc called directly; fake clock; recording transmission) and comparing SendBy, decided traces, "
